@@ -850,8 +850,9 @@ theorem C19_bin_tape_prefix (opt : Bool) (data : Bytes) (k : Nat) (t' t : Tape)
 
 /-- **C19, binary tape, error form**: if on the whole input the plain loop never stands at depth 0
 in key state with (all but at most one of) the first `k` bytes consumed, the input cut after `k`
-bytes is rejected by both parsers.  (A cut inside a container, inside a token's payload, or
-between a key and the end of its value is always an error.) -/
+bytes is rejected by both parsers.  Its hypothesis is discharged for the two standard situations by
+`C19_bin_tape_cut_inside_token_error` (the cut falls into the bytes one iteration consumes) and
+`C19_bin_tape_cut_inside_container_error` (the cut falls inside a container) at the end of this file. -/
 theorem C19_bin_tape_cut_error (opt : Bool) (data : Bytes) (k : Nat)
     (hno : ∀ t' r, r.length ≤ 1 → ¬ Reach (init data) ⟨t', 0, .key, r ++ data.drop k⟩) :
     ∃ e, parse opt (data.take k) = .error e := by
@@ -1123,5 +1124,176 @@ example : parse true (([0x82, 0x2d, 1, 0, 0x0c, 0, 5, 0, 0, 0, 0x82, 0x2d, 1, 0,
       = .ok [.token 0x2d82, .i32 5] ∧
     parse true (([0x82, 0x2d, 1, 0, 0x0c, 0, 5, 0, 0, 0, 0x82, 0x2d, 1, 0, 3, 0] : Bytes).take 12)
       = .error .eof := ⟨rfl, rfl, rfl⟩
+
+/-! ## cuts inside a token, cuts inside a container -/
+
+/-- the plain loop is deterministic: two reachable states lie on one line -/
+theorem Reach.linear {s a c : St} (ha : Reach s a) (hc : Reach s c) : Reach a c ∨ Reach c a := by
+  obtain ⟨k, hk⟩ := ha
+  obtain ⟨m, hm⟩ := hc
+  rcases Nat.le_total k m with hkm | hmk
+  · left
+    refine ⟨m - k, ?_⟩
+    have := stepN_split k (m - k) s
+    rw [show k + (m - k) = m by omega, hm, hk] at this
+    simpa using this.symm
+  · right
+    refine ⟨k - m, ?_⟩
+    have := stepN_split m (k - m) s
+    rw [show m + (k - m) = k by omega, hk, hm] at this
+    simpa using this.symm
+
+theorem Reach.eq_or_reach1 {a c : St} (h : Reach a c) : a = c ∨ Reach1 a c := by
+  obtain ⟨k, hk⟩ := h
+  cases k with
+  | zero => simp [stepN] at hk; exact Or.inl hk
+  | succ k => exact Or.inr ⟨k, hk⟩
+
+/-- offsets: a state of the run on `data` stands at offset `j` -/
+def AtOffset (data : Bytes) (st : St) (j : Nat) : Prop := j ≤ data.length ∧ st.data = data.drop j
+
+theorem offset_mono {data : Bytes} {a c : St} {ja jc : Nat} (ha : AtOffset data a ja) (hc : AtOffset data c jc)
+    (hg : a.Good) (h : Reach a c) : ja ≤ jc := by
+  have := (h.good hg).2
+  rw [ha.2, hc.2] at this
+  simp at this
+  have := ha.1; have := hc.1
+  omega
+
+theorem offset_strict {data : Bytes} {a c : St} {ja jc : Nat} (ha : AtOffset data a ja) (hc : AtOffset data c jc)
+    (hg : a.Good) (h : Reach1 a c) : ja < jc := by
+  have := (h.good hg).2
+  rw [ha.2, hc.2] at this
+  simp at this
+  have := ha.1; have := hc.1
+  omega
+
+/-- the cut point of an accepted prefix, as a state of the full run -/
+theorem cut_state (opt : Bool) (data : Bytes) (k : Nat) (hk : k ≤ data.length) (t' : Tape)
+    (h : parse opt (data.take k) = .ok t') :
+    ∃ c j, Reach (init data) c ∧ c.parent = 0 ∧ c.state = .key ∧ c.tape = t' ∧ AtOffset data c j ∧ j ≤ k ∧ k ≤ j + 1 := by
+  obtain ⟨j, h1, h2, h3⟩ := C19_bin_tape_cut_offset opt data k hk t' h
+  exact ⟨_, j, h3, rfl, rfl, rfl, ⟨by omega, rfl⟩, h1, h2⟩
+
+/-- **C19, binary tape: a cut inside the bytes one iteration consumes is an error.**  Let the run on the
+whole input stand at offset `j` (state `st`), and let its next iteration consume the `m` bytes up to
+offset `j + m` — a lexeme with its payload (`id`, `=`, a scalar of any type with its 1/4/8 payload bytes
+or its length-prefixed string), an rgb block, or a ghost `{ }` pair.  Then for every cut `k` with
+`j + 2 ≤ k < j + m` the first `k` bytes are rejected by both parsers.  The exclusion of `k = j + 1` is the
+documented tolerance, exactly: one stray byte behind a point where the prefix ends at depth 0 in key
+state is ignored (`C19_bin_tape_cut_offset`: an accepted cut is at `j` or `j + 1` for such a point `j`). -/
+theorem C19_bin_tape_cut_inside_token_error (opt : Bool) (data : Bytes) (st st' : St) (j m : Nat)
+    (hr : Reach (init data) st) (hst : AtOffset data st j) (hstep : step st = .next st')
+    (hst' : AtOffset data st' (j + m)) (k : Nat) (hk1 : j + 2 ≤ k) (hk2 : k < j + m) :
+    ∃ e, parse opt (data.take k) = .error e := by
+  cases hp : parse opt (data.take k) with
+  | error e => exact ⟨e, rfl⟩
+  | ok t' =>
+    exfalso
+    have hkl : k ≤ data.length := by have := hst'.1; omega
+    obtain ⟨c, jc, hc, _, _, _, hcj, h1, h2⟩ := cut_state opt data k hkl t' hp
+    have hgs := (hr.good (init_good data)).1
+    have hgc := (hc.good (init_good data)).1
+    rcases Reach.linear hr hc with hsc | hcs
+    · -- the cut state is `st` itself or comes after `st'`
+      rcases hsc.eq_or_reach1 with rfl | ⟨n, hn⟩
+      · have : st.data = data.drop j := hst.2
+        rw [hcj.2] at this
+        have hl := congrArg List.length this
+        simp at hl
+        have := hcj.1; have := hst.1
+        omega
+      · simp only [stepN, hstep] at hn
+        have hgs' := (step_good hstep hgs).1
+        have := offset_mono hst' hcj hgs' ⟨n, hn⟩
+        omega
+    · have := offset_mono hcj hst hgc hcs
+      omega
+
+/-- **C19, binary tape: a cut inside a container is an error.**  Let `a` and `b` be states of the run on the
+whole input, `a` at offset `ja` — right behind a container's `{` — and `b` at offset `jb` — right in front
+of its matching `}` — such that every state from `a` to `b` is inside a container (`parent ≠ 0`).  Then
+for every cut `k` with `ja + 1 ≤ k ≤ jb` the first `k` bytes are rejected by both parsers.  (The cuts
+`k ≤ ja` fall into the `{` lexeme or in front of it, `k > jb` into the `}` or behind it:
+`C19_bin_tape_cut_inside_token_error` / `C19_bin_tape_cut_offset`.) -/
+theorem C19_bin_tape_cut_inside_container_error (opt : Bool) (data : Bytes) (a b : St) (ja jb : Nat)
+    (hra : Reach (init data) a) (hab : Reach a b) (ha : AtOffset data a ja) (hb : AtOffset data b jb)
+    (hin : ∀ c, Reach a c → Reach c b → c.parent ≠ 0)
+    (k : Nat) (hk1 : ja + 1 ≤ k) (hk2 : k ≤ jb) :
+    ∃ e, parse opt (data.take k) = .error e := by
+  cases hp : parse opt (data.take k) with
+  | error e => exact ⟨e, rfl⟩
+  | ok t' =>
+    exfalso
+    have hkl : k ≤ data.length := by have := hb.1; omega
+    obtain ⟨c, jc, hc, hpar, _, _, hcj, h1, h2⟩ := cut_state opt data k hkl t' hp
+    have hga := (hra.good (init_good data)).1
+    have hgc := (hc.good (init_good data)).1
+    have hrb := hra.trans hab
+    have hgb := (hrb.good (init_good data)).1
+    -- `c` lies before `a`, between `a` and `b`, or after `b`
+    rcases Reach.linear hra hc with hac | hca
+    · rcases Reach.linear hrb hc with hbc | hcb
+      · rcases hbc.eq_or_reach1 with rfl | hbc1
+        · exact hin b hab (Reach.refl _) hpar
+        · have := offset_strict hb hcj hgb hbc1
+          omega
+      · exact hin c hac hcb hpar
+    · rcases hca.eq_or_reach1 with rfl | hca1
+      · exact hin c (Reach.refl _) hab hpar
+      · have := offset_strict hcj ha hgc hca1
+        omega
+
+
+/-- hypotheses satisfiable: `id = { I32 5 }`; the full run stands at offset 6 in front of the `I32` lexeme
+(6 bytes); cuts at 8..11 fall inside it -/
+example : ∀ k, 8 ≤ k → k < 12 →
+    ∃ e, parse true (([0x82, 0x2d, 1, 0, 3, 0, 0x0c, 0, 5, 0, 0, 0, 4, 0] : Bytes).take k) = .error e :=
+  fun k h1 h2 =>
+    C19_bin_tape_cut_inside_token_error true [0x82, 0x2d, 1, 0, 3, 0, 0x0c, 0, 5, 0, 0, 0, 4, 0]
+      ⟨[.token 0x2d82, .array 0], 1, .openFirst, [0x0c, 0, 5, 0, 0, 0, 4, 0]⟩
+      ⟨[.token 0x2d82, .array 0, .i32 5], 1, .openSecond, [4, 0]⟩ 6 6
+      ⟨3, rfl⟩ ⟨by decide, rfl⟩ rfl ⟨by decide, rfl⟩ k h1 h2
+
+/-- the same input cut at every point strictly inside the container `{ I32 5 }` (offsets 7..12), and inside the
+`I32` payload: all rejected; cut behind the `}` (14) or one stray byte further it is accepted -/
+example :
+    let data : Bytes := [0x82, 0x2d, 1, 0, 3, 0, 0x0c, 0, 5, 0, 0, 0, 4, 0, 0x82]
+    parse true (data.take 7) = .error .eof ∧ parse true (data.take 8) = .error .eof ∧
+    parse true (data.take 9) = .error .eof ∧ parse true (data.take 10) = .error .eof ∧
+    parse true (data.take 11) = .error .eof ∧ parse true (data.take 12) = .error .eof ∧
+    parse true (data.take 13) = .error .eof ∧
+    parse true (data.take 14) = .ok [.token 0x2d82, .array 3, .i32 5, .end_ 1] ∧
+    parse true (data.take 15) = .ok [.token 0x2d82, .array 3, .i32 5, .end_ 1] :=
+  ⟨rfl, rfl, rfl, rfl, rfl, rfl, rfl, rfl, rfl⟩
+
+
+theorem Reach.antisymm {b c : St} (hg : b.Good) (h1 : Reach b c) (h2 : Reach c b) : b = c := by
+  rcases h1.eq_or_reach1 with h | h
+  · exact h
+  · have hgc := (h.good hg)
+    have := (h2.good hgc.1).2
+    omega
+
+/-- the states strictly between two consecutive states of the run: none -/
+theorem between_step {a b c : St} (hg : a.Good) (hs : step a = .next b) (h1 : Reach a c) (h2 : Reach c b) : c = a ∨ c = b := by
+  rcases h1.eq_or_reach1 with h | ⟨n, hn⟩
+  · exact Or.inl h.symm
+  · simp only [stepN, hs] at hn
+    have hgb := (step_good hs hg).1
+    exact Or.inr (Reach.antisymm hgb ⟨n, hn⟩ h2).symm
+
+/-- hypotheses of the container theorem satisfiable: `id = { I32 5 }`, `a` behind the `{` (offset 6), `b` in
+front of the `}` (offset 12): the cuts 7..12 are rejected -/
+example : ∀ k, 7 ≤ k → k ≤ 12 →
+    ∃ e, parse true (([0x82, 0x2d, 1, 0, 3, 0, 0x0c, 0, 5, 0, 0, 0, 4, 0] : Bytes).take k) = .error e := by
+  intro k h1 h2
+  have ha : Reach (init [0x82, 0x2d, 1, 0, 3, 0, 0x0c, 0, 5, 0, 0, 0, 4, 0])
+      ⟨[.token 0x2d82, .array 0], 1, .openFirst, [0x0c, 0, 5, 0, 0, 0, 4, 0]⟩ := ⟨3, rfl⟩
+  have hs : step ⟨[.token 0x2d82, .array 0], 1, .openFirst, [0x0c, 0, 5, 0, 0, 0, 4, 0]⟩
+      = .next ⟨[.token 0x2d82, .array 0, .i32 5], 1, .openSecond, [4, 0]⟩ := rfl
+  refine C19_bin_tape_cut_inside_container_error true _ _ ⟨[.token 0x2d82, .array 0, .i32 5], 1, .openSecond, [4, 0]⟩ 6 12 ha ⟨1, by simp [stepN, hs]⟩ ⟨by decide, rfl⟩ ⟨by decide, rfl⟩ ?_ k h1 h2
+  intro c hc1 hc2
+  rcases between_step (ha.good (init_good _)).1 hs hc1 hc2 with rfl | rfl <;> decide
 
 end Jomini.BinTape
